@@ -192,6 +192,7 @@ class Spec:
         self.adel = {0: True}
         self.removed = set()
         self.via_parent = set()
+        self.foreign_pg = set()
         self.n = 1
 
     def attached(self, k):
@@ -273,9 +274,13 @@ class Spec:
         elif t == "remove_parent":
             self.remove(op["e"], True)
         elif t == "remove_parent_many":
+            # the request is made to the parent of the first entity; entities that are not its children are none of its business
+            p = self.parent[op["es"][0]]
             for e in op["es"]:
-                if self.attached(e):
+                if self.attached(e) and self.parent[e] == p:
                     self.remove(e, True)
+                elif self.kind[e] == "pg" and self.attached(e):
+                    self.foreign_pg.add(e)  # a property group of another object in the list (kept; see the oracle)
         elif t == "lookup":
             return "any"
         return "ok"
@@ -369,7 +374,13 @@ def random_history(rng):
             if parents:
                 p = _pick(rng, parents)
                 kids = [c for c in sp.children[p] if sp.attached(c)]
-                emit({"op": "remove_parent_many", "es": rng.sample(kids, rng.range(2, min(3, len(kids))))})
+                es = rng.sample(kids, rng.range(2, min(3, len(kids))))
+                if rng.chance(35):
+                    # entities that are NOT children of that parent in the same list (any kind): they are to be left alone
+                    others = [k for k in ents if sp.parent[k] != p and k not in es]
+                    for x in rng.sample(others, min(len(others), rng.range(1, 2))):
+                        es.insert(rng.range(1, len(es)), x)
+                emit({"op": "remove_parent_many", "es": es})
             else:
                 emit({"op": "remove_parent", "e": _pick(rng, ents)})
         elif r < 60:
@@ -928,9 +939,26 @@ def final_ser(obs):
     return out
 
 
+def _foreign_pg(case):
+    """A property group of ANOTHER object in the list handed to parent.remove_children: outside the model (Removal.v,
+    ORemoveParentMany), oracle only."""
+    kind, parent, n = {0: "group"}, {0: None}, 1
+    for op in case["ops"]:
+        t = op["op"]
+        if t in ("group", "object", "data", "pg_new"):
+            kind[n] = "pg" if t == "pg_new" else t
+            parent[n] = op.get("p", op.get("o"))
+            n += 1
+        elif t == "remove_parent_many":
+            p = parent.get(op["es"][0])
+            if any(kind.get(e) == "pg" and parent.get(e) != p for e in op["es"]):
+                return True
+    return False
+
+
 def case_term(case, obs):
-    if "concat" in case:
-        return None  # concatenated storage: oracle only
+    if "concat" in case or _foreign_pg(case):
+        return None  # concatenated storage / a foreign property group in a remove_children list: oracle only
     if "per_op" not in obs or "reopened" not in obs:
         return "false"
     fin = final_ser(obs)
@@ -941,7 +969,7 @@ def case_term(case, obs):
 
 
 def model_term(case):
-    if "concat" in case:
+    if "concat" in case or _foreign_pg(case):
         return None
     return "(let (l, w) := run_obs cur init %s in (l, reopen_view (close_effect w)))" % _hist_term(case)
 
@@ -1157,7 +1185,12 @@ def oracle(case, obs):
             want_rows.append([k, ch, pgs])
     if obs["reopened"] != want_rows:
         dang = any(d in sp.removed for _, _, pgs in obs["reopened"] for _, m in pgs for d in m)
-        add("pg-lists-removed-data" if dang and "pg-lists-removed-data" in seen else "reopen-differs",
+        # the only difference is a property group whose stored record the recorded finding deleted?
+        def without(rows):
+            return [[k, ch, [x for x in pgs if x[0] not in sp.foreign_pg]] for k, ch, pgs in rows]
+        foreign = "remove-children-foreign-pg" in seen and without(obs["reopened"]) == without(want_rows)
+        add("remove-children-foreign-pg" if foreign else
+            "pg-lists-removed-data" if dang and "pg-lists-removed-data" in seen else "reopen-differs",
             f"after re-open: {obs['reopened']} expected {want_rows}")
     for k, refused, changed in obs.get("protected_reopen", []):
         if refused is not True:
@@ -1198,6 +1231,12 @@ def _file_checks(sp, o, where, add):
         else:
             add("link-to-removed", f"{where}: child links to or from removed entities: {bad_links}")
     want_fpg = sorted([g, m] for ob in sp.groups if sp.attached(ob) for g, m in sp.groups[ob].items())
+    lost = [x for x in want_fpg if x not in o["fpg"]]
+    if lost and all(x[0] in sp.foreign_pg for x in lost):
+        # recorded finding; the rest of the stored groups is judged without them
+        add("remove-children-foreign-pg", f"{where}: property groups {[x[0] for x in lost]} were in a list handed to ANOTHER object's "
+            f"remove_children: kept in memory, their stored records are gone: {o['fpg']} expected {want_fpg}")
+        want_fpg = [x for x in want_fpg if x not in lost]
     if o["fpg"] != want_fpg:
         got = {g: m for g, m in o["fpg"]}
         odd = [g for g, m in o["fpg"] if [g, m] not in want_fpg]
